@@ -905,6 +905,15 @@ theorem erc20_leg_needs_allowance (pk : PairKind) (r : Roles) (a : Nat) (w : TW)
 
 
 
+/-- `bridgeCall` converts the tokens of its list with keeper power (`EvmToBaseCoin(ctx, token, amount, holder)`: no ERC-20
+allowance is consulted): in the regenerated closure the holder handed to EVERY such call is `contract.Caller()`, and the
+refund address goes to `AddOutgoingBridgeCall` only -/
+theorem bridge_call_token_holder_is_caller :
+    (FxVerif.Gen.C10.closures.filter (fun cl => cl.abiName == "bridgeCall")).all (fun cl =>
+      cl.single && cl.steps.any (fun s => s.callee == "EvmToBaseCoin") &&
+      cl.steps.all (fun s => s.callee != "EvmToBaseCoin" || (s.args.getLast? == some "caller" && s.err == "checked"))) = true ∧
+    (FxVerif.Gen.C10.closures.filter (fun cl => cl.abiName == "bridgeCall")).length = 1 := by decide
+
 -- non-vacuity: a contract-owned token, sender 1 holding 100 with 60 approved to the precompile 7, moving 50
 def tokW0 : TW := ⟨fun x => if x = 1 then 100 else 0, fun x y => if x = 1 ∧ y = 7 then 60 else 0, fun _ => 0⟩
 example : (⟨1, 7, 8, 9⟩ : Roles).distinct := by simp [Roles.distinct]
